@@ -2,7 +2,13 @@
 
 package pilosa
 
-import "sync/atomic"
+import (
+	"encoding/json"
+	"fmt"
+	"os"
+	"sync"
+	"sync/atomic"
+)
 
 // VerifResizeHook, when set (before any cluster is used), receives the events
 // of the resize protocol emitted by cluster.go at its linearization points:
@@ -30,3 +36,28 @@ func verifResizeEvent(c *cluster, point string, kv ...interface{}) {
 // VerifResizeClusterOf returns the value passed as `c` to VerifResizeHook for
 // events of this cluster.
 func (v *VerifResizeCluster) VerifResizeClusterOf() interface{} { return v.c }
+
+// With $VERIF_RESIZE_TRACE set (and no hook installed by a harness) every event
+// is appended to that file as one JSON line, so that the repository's own
+// resize tests can be run with recording on.
+func init() {
+	p := os.Getenv("VERIF_RESIZE_TRACE")
+	if p == "" {
+		return
+	}
+	f, err := os.OpenFile(p, os.O_CREATE|os.O_WRONLY|os.O_APPEND, 0644)
+	if err != nil {
+		return
+	}
+	var mu sync.Mutex
+	VerifResizeHook = func(c interface{}, seq uint64, point string, kv ...interface{}) {
+		id := ""
+		if c != nil {
+			id = fmt.Sprintf("%p", c)
+		}
+		args, _ := json.Marshal(kv)
+		mu.Lock()
+		fmt.Fprintf(f, "{\"c\":%q,\"seq\":%d,\"point\":%q,\"kv\":%s}\n", id, seq, point, args)
+		mu.Unlock()
+	}
+}
